@@ -20,7 +20,7 @@ def near_boundary(rng, L, extra=0):
 
 def rope_history(rng, nops, nv, dist, maxinit=40, reads=True):
     def hit(k): dist[k] = dist.get(k, 0) + 1
-    n0 = rng.choice([0, 0, 1, 5, 7, 8, 9, 15, 16, 17, 24, 30, maxinit])
+    n0 = rng.choice([0, 0, 1, 5, 7, 8, 9, 15, 16, 17, 24, 30, maxinit]) if maxinit <= 40 else maxinit
     ops = []
     if n0 == 0 and rng.random() < 0.5:
         ops.append('new'); L = 0; hit('build_new')
